@@ -42,7 +42,7 @@ def run(tier, seed, replay=None):
     vlib.harness_json(vlib.build_harness(), ["mesh", "-scenarios", "0", "-seed", str(seed), "-hooktrace", mhooks, "-trace", wd + "/mesh_trace.ndjson"], wd, timeout=1500, name="meshdirected")
     nt = nodetrace.validate(wd, [out["hooks"], nodetrace.repo_test_traces(wd), mhooks], timeout=2400)
     for d in nt["diffs"]:
-        if d["event"] in ("ru_seen", "ru_apply", "ru_dupnotice", "flood", "mk_update", "ru_self", "node_new"):
+        if d["event"] in ("ru_seen", "ru_apply", "ru_dupnotice", "flood", "mk_update", "ru_self", "node_new", "known_add"):
             v.violation("C06:%s:%s" % (d["event"], "+".join(d["what"])),
                         "node event '%s' is not a behaviour of NetCore/NodeTrace: %s; event %s" % (d["event"], ",".join(d["what"]), str(d["context"][-1])[:600]),
                         {"instance": d["instance"], "context": d["context"]})
